@@ -42,6 +42,9 @@ CHECKS = {
  "C16": ("model_checking", "Every zoo grammar and every accepted family grammar is generated through the CLI path so that parser.c and node-types.json come from one run; every error-free tree over the box is validated against node-types.json (types, fields, children, supertypes, required/multiple, extras, root); all symbol and field ids round-trip; for all states x terminals a successor implies membership in the look-ahead iterator, and along every accepted token string the next token is listed in the state after the previous one.",
          "Anonymous field-less children are not described by node-types.json. Look-ahead-along-string is skipped for GLR grammars (leaf parse states may belong to dropped stack versions). Supertype ids are looked up as named.",
          "bounded-exhaustive enumeration of (grammar, tree) and (state, symbol) against the generated metadata", "DESIGN.md §2 C16"),
+ "C14": ("model_checking", "Bounded-exhaustive enumeration of token sets (all ordered pairs of 39 menu variants, all ordered triples of 13 plain items, in a token-soup grammar and a two-context grammar, plus keyword grammars; extras none/space) crossed with every input string up to the length bound; the leaf sequence of the real generated lexer/parser is compared with a reference tokenizer built on the independent `regex` crate that applies the five documented disambiguation rules.",
+         "The documented rule list is the specification. Quick tier takes an evenly spread subset of each family (reported as a cap in bounds).",
+         "bounded-exhaustive enumeration of (token set, input) with a regex-based reference tokenizer", "DESIGN.md §2 C14"),
 }
 REASON_WIP = "check not built yet (work in progress; see DESIGN.md build order)"
 def main():
